@@ -20,7 +20,8 @@ RULE = (
     "reference model. A scenario is non-trivial if at least two decodings hit "
     "the same shared encoder/destination and either a fault fired before one of "
     "them or two different permutations were decoded; distinct = distinct "
-    "scenario-document digests.")
+    "scenario-document digests."
+    ' Further dimensions: calls that end with an exception between valid ones, the caller re-using the item matrix it handed over (also column-major or as another Instance), and two caller threads decoding at the same time (one shared encoder of encoding 1 or an encoder each, created inside the thread) under the line-event scheduler. Violations that need scribbled private arrays count only if the history without those scribbles shows them too.')
 COMPONENTS = {
     "real": ["moptipyapps.binpacking2d.instance.Instance",
              "moptipyapps.binpacking2d.packing_space.PackingSpace.create",
